@@ -341,13 +341,13 @@ func (p *Path) sample() *PathSample {
 	s := &PathSample{Harness: p.h.Name, Inputs: vals, Kinds: kinds, Order: order, Tags: p.tags, Trail: p.trailString()}
 	ev := newEvaluator(p.model)
 	for _, o := range p.obs {
-		s.Obs = append(s.Obs, o.Label+"="+renderObs(ev, o.val))
+		s.Obs = append(s.Obs, o.Label+"="+renderObs(ev, o.val, p.tokens))
 	}
 	return s
 }
 
 // renderObs renders an observed value under a model in the same format as vrt.render natively.
-func renderObs(ev *evaluator, v value) string {
+func renderObs(ev *evaluator, v value, toks map[int32]*Token) string {
 	conc := func(x value) value {
 		if s, ok := x.(sym); ok {
 			return valueOf(mkConst(int(s.t.w), ev.eval(s.t)), s.k)
@@ -355,13 +355,27 @@ func renderObs(ev *evaluator, v value) string {
 		return x
 	}
 	bytesOf := func(b []value) ([]byte, bool) {
-		out := make([]byte, len(b))
-		for i, e := range b {
+		out := make([]byte, 0, len(b))
+		var lastTok *Token
+		for _, e := range b {
+			if se, ok := e.(sym); ok && se.t.op == OpVar && toks != nil {
+				if tk := toks[se.t.id]; tk != nil && tk.render != nil {
+					if tk == lastTok {
+						continue // further bytes of the same token: already rendered
+					}
+					if se.t.id == tk.first {
+						out = append(out, tk.render(ev)...)
+						lastTok = tk
+						continue
+					}
+				}
+			}
+			lastTok = nil
 			c, ok := conc(e).(uint8)
 			if !ok {
 				return nil, false
 			}
-			out[i] = c
+			out = append(out, c)
 		}
 		return out, true
 	}
@@ -403,7 +417,7 @@ func renderObs(ev *evaluator, v value) string {
 			return fmt.Sprintf("%q", parts)
 		}
 	case sym:
-		return renderObs(ev, conc(x))
+		return renderObs(ev, conc(x), toks)
 	case float64:
 		return fmt.Sprintf("f64:%016x", math.Float64bits(x))
 	case float32:
